@@ -85,6 +85,9 @@ func TestVerifConfChain(t *testing.T) {
 			ch.Put(r)
 		}
 		path := cs.FindConversionChain("crd", Rule{FromVersion: from, ToVersion: to})
+		if len(path) == 0 && vcReachable(declared, from, to) {
+			report("chain-not-found"+tag, "webhook/conversion.(ChainStorage).FindConversionChain", fmt.Sprintf("rules %v, request %s->%s: a chain exists but none was found", declared, from, to))
+		}
 		if len(path) > 0 {
 			if why := vcValid(path, declared, from, to); why != "" {
 				c := "chain-invalid-path"
@@ -144,5 +147,22 @@ func TestVerifConfChain(t *testing.T) {
 		check(declared, "a", "e", "-aliasing")
 		check(declared, "a", "f", "-aliasing")
 	}
-	fmt.Printf("CONF-STATS evaluated=%d scope=rule sets of <=5 rules over versions {v0,v1,v1beta1,v3} with mixed short/full spellings, all (from,to) requests; soundness of every returned chain (completeness is not asserted)\n", evaluated)
+	// upgrade-only rule lines (the newest version is never a source) and a fork, every request
+	for n := 2; n <= 6; n++ {
+		var declared []Rule
+		for i := 1; i < n; i++ {
+			declared = append(declared, Rule{FromVersion: fmt.Sprintf("v%d", i), ToVersion: fmt.Sprintf("v%d", i+1)})
+		}
+		declared = append(declared, Rule{FromVersion: "v2", ToVersion: "v2fork"})
+		for i := 1; i <= n; i++ {
+			for j := 1; j <= n; j++ {
+				if i != j {
+					check(declared, fmt.Sprintf("v%d", i), fmt.Sprintf("v%d", j), "-line")
+					check(declared, fmt.Sprintf("g.io/v%d", i), fmt.Sprintf("v%d", j), "-line")
+				}
+			}
+			check(declared, fmt.Sprintf("v%d", i), "v2fork", "-line")
+		}
+	}
+	fmt.Printf("CONF-STATS evaluated=%d scope=rule sets of <=5 rules over versions {v0,v1,v1beta1,v3} with mixed short/full spellings, all (from,to) requests; upgrade-only lines of 2-6 versions with a fork; every returned chain is sound, and a chain is found whenever the reference search finds one\n", evaluated)
 }
